@@ -39,7 +39,13 @@ type concOp struct {
 	input string
 	rd    *SimReader
 	key   string
+	// failing-reader operations: the reader fails after delivering prefix; the call may fail, or it
+	// must return exactly what the same call returns for the delivered prefix
+	relaxed bool
+	prefix  string
 }
+
+const failedOrError = "error (allowed: the reader failed)"
 
 // mailbox passes errors between tasks the way a real program would: under a mutex the race
 // detector can see.
@@ -77,6 +83,16 @@ func execParserOp(op *concOp, p PH, w *world, mb *mailbox, reference bool) strin
 			}
 			return p.ParseFromLexer(pl)
 		})
+	case "ParseFailingReader":
+		res = call(func() (interface{}, error) {
+			if reference {
+				return p.ParseString(name, op.prefix)
+			}
+			return p.Parse(name, op.rd)
+		})
+		if res.Err != nil || res.Panic != "" {
+			return failedOrError
+		}
 	case "Parser.Lex":
 		res = lexCall(func() ([]lexer.Token, error) { return p.Lex(name, strings.NewReader(op.input)) })
 	case "Parser.String":
@@ -136,6 +152,16 @@ func execDefOp(op *concOp, def lexer.Definition) string {
 			}
 			return def.Lex(name, strings.NewReader(op.input))
 		})
+	case "Def.LexFailingReader":
+		res = consume(func() (lexer.Lexer, error) {
+			if op.rd != nil {
+				return def.Lex(name, op.rd)
+			}
+			return def.Lex(name, strings.NewReader(op.prefix))
+		})
+		if res.Err != nil || res.Panic != "" {
+			return failedOrError
+		}
 	case "Def.Symbols":
 		res = call(func() (interface{}, error) { s := symbolsDesc(def.Symbols()); return &s, nil })
 	case "Def.Rules":
@@ -235,8 +261,8 @@ func execEbnfOp(op *concOp, reference bool) string {
 // no constructor, hence no fresh instance): later results must equal it.
 var genMemo = map[string]string{}
 
-var parserOpKinds = []string{"ParseString", "ParseBytes", "Parse", "ParseFromLexer", "Parser.Lex", "Parser.String", "PostError", "ParseString", "ParseString"}
-var defOpKinds = []string{"Def.Lex", "Def.LexString", "Def.LexBytes", "Def.Symbols", "Def.Rules", "Def.MarshalJSON", "SymbolsByRune", "Def.LexString", "Def.LexString"}
+var parserOpKinds = []string{"ParseString", "ParseBytes", "Parse", "ParseFromLexer", "Parser.Lex", "Parser.String", "PostError", "ParseString", "ParseString", "ParseFailingReader"}
+var defOpKinds = []string{"Def.Lex", "Def.LexString", "Def.LexBytes", "Def.Symbols", "Def.Rules", "Def.MarshalJSON", "SymbolsByRune", "Def.LexString", "Def.LexString", "Def.LexFailingReader"}
 
 func runConcurrency(rc *RunCtx) *Violation {
 	delims := runDelims(rc.seed)
@@ -317,6 +343,13 @@ func runConcurrency(rc *RunCtx) *Violation {
 			if withFaults {
 				op.input, _ = deriveInput(rc, x, nil, allContentFaults)
 			}
+			if op.kind == "Def.LexFailingReader" {
+				op.rd = newSimReader(rc, op.input, nil, readerOpts{})
+				op.rd.errAfter = simrt.Choose(len(op.input) + 1)
+				op.relaxed = true
+				op.prefix = op.input[:op.rd.errAfter]
+				op.input = op.prefix + "|fails"
+			}
 			op.key = fmt.Sprintf("d%d|%s|%s", op.di, op.kind, op.input)
 		default:
 			op.pi = simrt.Choose(len(parsers))
@@ -334,6 +367,13 @@ func runConcurrency(rc *RunCtx) *Violation {
 			}
 			if op.kind == "Parse" {
 				op.rd = newSimReader(rc, op.input, nil, readerOpts{})
+			}
+			if op.kind == "ParseFailingReader" {
+				op.rd = newSimReader(rc, op.input, nil, readerOpts{})
+				op.rd.errAfter = simrt.Choose(len(op.input) + 1)
+				op.relaxed = true
+				op.prefix = op.input[:op.rd.errAfter]
+				op.input = op.prefix + "|fails"
 			}
 			op.key = fmt.Sprintf("p%d|%s|%s", op.pi, op.kind, op.input)
 		}
@@ -485,6 +525,7 @@ func runConcurrency(rc *RunCtx) *Violation {
 	}
 
 	// ---- phase 3: quiescent read-back: every distinct operation once more, sequentially -----
+	var readbackRefs []*concOp
 	seen := map[string]bool{}
 	var distinctOps []*concOp
 	for _, r := range results {
@@ -498,6 +539,20 @@ func runConcurrency(rc *RunCtx) *Violation {
 		cp.rd = nil
 		if cp.kind == "PostError" {
 			cp.kind = "ParseString"
+		}
+		if cp.relaxed {
+			// read back as the plain call over the delivered prefix
+			cp.relaxed = false
+			cp.input = cp.prefix
+			if cp.kind == "ParseFailingReader" {
+				cp.kind = "ParseString"
+			} else {
+				cp.kind = "Def.Lex"
+			}
+			cp.key = "readback|" + op.key
+			results = append(results, opResult{&cp, exec(&cp, false), "read-back"})
+			readbackRefs = append(readbackRefs, &cp)
+			continue
 		}
 		results = append(results, opResult{&cp, exec(&cp, false), "read-back"})
 	}
@@ -526,9 +581,20 @@ func runConcurrency(rc *RunCtx) *Violation {
 		}
 		refs[op.key] = exec(&cp, true)
 	}
+	for _, op := range readbackRefs {
+		refs[op.key] = exec(op, true)
+	}
 	for _, r := range results {
 		ref := refs[r.op.key]
 		simrt.HashEvent(hashString(r.desc))
+		if r.op.relaxed && r.desc == failedOrError {
+			rc.fault("read-error")
+			continue
+		}
+		if r.op.relaxed && ref == failedOrError {
+			// the delivered prefix does not parse: any error is fine, a value is not
+			ref = "an error (the delivered prefix does not parse)"
+		}
 		if r.desc != ref {
 			what := "shared parser"
 			where := ""
